@@ -35,6 +35,10 @@ CORE_MAY_PANIC = ('core::time::Duration::from_secs_f32', 'core::time::Duration::
                   'core::slice::<impl [T]>::chunks_exact', 'core::slice::<impl [T]>::windows', 'core::str::<impl str>::split_at',
                   'core::cmp::Ord::clamp', 'core::cell::RefCell::<T>::borrow', 'core::cell::RefCell::<T>::borrow_mut',
                   'core::iter::traits::iterator::Iterator::step_by', 'core::char::from_digit', 'core::unreachable')
+# of these the interpreter's models decide the panic condition from the (concrete) lengths and indices at each call site:
+# a site that can panic yields a panic outcome, one that cannot be decided an unmodelled-callee obligation
+DECIDED_BY_MODEL = ('core::slice::<impl [T]>::copy_from_slice', 'core::slice::<impl [T]>::clone_from_slice', 'core::slice::<impl [T]>::split_at',
+                    'core::slice::<impl [T]>::split_at_mut', 'core::slice::<impl [T]>::swap', 'core::iter::traits::iterator::Iterator::step_by')
 PANICKING_TIME_TRAITS = ('core::ops::arith::Add', 'core::ops::arith::Sub', 'core::ops::arith::Mul', 'core::ops::arith::Div',
                          'core::ops::arith::AddAssign', 'core::ops::arith::SubAssign', 'core::ops::arith::MulAssign', 'core::ops::arith::DivAssign')
 # trait methods that cannot panic for the receivers met here (comparisons, clone, hash, fmt, default) when left unmodelled
@@ -133,7 +137,8 @@ def allocation(chk, Fs):
             tr = c.get('trait')
             timey = any(a.get('path') in ('std::time::Instant', 'core::time::Duration') for a in c['args'][:1])
             sub_instants = tr == 'core::ops::arith::Sub' and len([a for a in c['args'] if a.get('path') == 'std::time::Instant']) == 2
-            if (tr in PANICKING_TIME_TRAITS and timey and not sub_instants) or c['path'] in CORE_MAY_PANIC or path in CORE_MAY_PANIC:
+            if (tr in PANICKING_TIME_TRAITS and timey and not sub_instants) or ((c['path'] in CORE_MAY_PANIC or path in CORE_MAY_PANIC)
+                                                                                and c['path'] not in DECIDED_BY_MODEL and path not in DECIDED_BY_MODEL):
                 if out_of_scope(F, site[0]):
                     continue
                 chk.ob('%s/panic/%s/may-panic-callee/%s' % (PID, cfg, site[0]), 'dead panic site', 'refuted', subject=site_subject(F, site),
